@@ -420,7 +420,20 @@ func (x *Exec) execInstr(f *Frame, b *ssa.BasicBlock, ins ssa.Instruction) {
 			binds = append(binds, x.val(f, bv))
 		}
 		fn := i.Fn.(*ssa.Function)
-		f.regs[i] = Val{T: x.fnToken(fn), Clo: i, Fn: fn, Bind: binds}
+		// every executed MakeClosure gets its own token: a function variable that was assigned on
+		// several paths is dispatched over the closures registered here (execDispatch)
+		tok := x.b.Fresh("clo_"+sanitize(fn.Name()), SInt)
+		x.b.Assert(mk(SBool, "(> %s 0)", tok))
+		for _, o := range x.closureOrder {
+			x.b.Assert(Not(Eq(tok, Term{o, SInt})))
+		}
+		v := Val{T: tok, Clo: i, Fn: fn, Bind: binds}
+		if x.closures == nil {
+			x.closures = map[string]Val{}
+		}
+		x.closures[tok.S] = v
+		x.closureOrder = append(x.closureOrder, tok.S)
+		f.regs[i] = v
 	case *ssa.Lookup:
 		x.execLookup(f, i)
 	case *ssa.MapUpdate:
@@ -789,6 +802,10 @@ func (x *Exec) typeTag(t types.Type) Term {
 	if !ok {
 		n = len(x.typeTags) + 1
 		x.typeTags[k] = n
+		if x.tagTypes == nil {
+			x.tagTypes = map[int]types.Type{}
+		}
+		x.tagTypes[n] = t
 	}
 	return IntLit(int64(n))
 }
@@ -818,6 +835,18 @@ func (x *Exec) execTypeAssert(f *Frame, i *ssa.TypeAssert) {
 		// interface-to-interface assertion: succeeds for non-nil values implementing it (unknown)
 		ok := x.b.Fresh("ta_ok", SBool)
 		x.assume(x.cur.reach, Implies(ok, Not(Eq(v, nilIfc))))
+		// dynamic types already known to the proof: the assertion succeeds exactly when the
+		// (non-nil) value's type implements the interface
+		if it, isI := i.AssertedType.Underlying().(*types.Interface); isI {
+			for n, ty := range x.tagTypes {
+				has := Eq(IfcTag(v), IntLit(int64(n)))
+				if types.Implements(ty, it) {
+					x.assume(x.cur.reach, Implies(And(has, Not(Eq(v, nilIfc))), ok))
+				} else {
+					x.assume(x.cur.reach, Implies(has, Not(ok)))
+				}
+			}
+		}
 		if i.CommaOk {
 			f.regs[i] = Val{Tup: []Val{{T: Ite(ok, v, nilIfc)}, {T: ok}}}
 			return
